@@ -19,7 +19,7 @@ func init() {
 		Assumptions: []string{"sync.Mutex provides mutual exclusion and happens-before between critical sections"},
 	}
 	reg("C12.locked", "LOCK", "guidFactory state is only touched under the factory mutex; every return unlocks", 8, c12locked)
-	reg("C12.monotone", "GUARD+CALLS", "lastID := id only when id > lastID; the stored id is the returned id; errors return 0", 4, c12monotone)
+	reg("C12.monotone", "GUARD+CALLS", "lastID := id only when id > lastID; the stored id is the returned id; errors return 0", 2, c12monotone)
 	reg("C12.layout", "SHAPE", "id layout constants agree with each other and with the node-id range check; rollover and clock regression are errors", 7, c12layout)
 	reg("C12.retry", "PATH", "Topic.GenerateID returns only on the generator's success edge", 1, c12retry)
 	reg("C12.source", "ORIG+CALLS", "one factory per topic; a message's id comes from the topic it is published to", 6, c12source)
@@ -95,18 +95,55 @@ func c12monotone(c *an.Ctx) {
 		}
 	}
 	c.Check(gt, fn, "lastID := id on id > lastID", st.Pos(), "", "lastID is updated without the dominating test id > lastID (an equal or smaller id would be handed out again)")
-	// success returns return exactly that id and are dominated by the store; error returns return 0
+	// success returns return exactly that id and follow the store; error returns return 0 – judged per path, so a single
+	// `return id, err` behind a merge of (0, ErrX) and (id, nil) is the same as one return per arm
 	for _, r := range an.Returns(fn) {
-		v := an.Resolve(r.Results[0])
-		if isSuccessReturn(r) {
-			same := v == id
-			q := &an.PathQ{Fn: fn, StartEntry: true, Sink: func(in ssa.Instruction, _ *an.PathState) bool { return in == ssa.Instruction(r) },
-				Cut: func(in ssa.Instruction, _ *an.PathState) bool { return in == ssa.Instruction(st) }}
-			_, f := q.Find()
-			c.Check(same && !f, fn, "returned id is the recorded id", r.Pos(), "", "a successful return does not return the id that was recorded in lastID (or returns without recording it): the next call can return the same or a smaller id")
-		} else {
-			k, isC := an.ConstInt(v)
-			c.Check(isC && k == 0, fn, "error returns the zero id", r.Pos(), "", "an error return carries a non-zero id")
+		r := r
+		onlyFailure := !isSuccessReturn(r)
+		// (a) a success return reached without the store
+		qa := &an.PathQ{Fn: fn, StartEntry: true, AllAlias: true, AllConsts: true,
+			Sink: func(in ssa.Instruction, ps *an.PathState) bool { return in == ssa.Instruction(r) && sinkSuccessReturn(in, ps) },
+			Cut:  func(in ssa.Instruction, _ *an.PathState) bool { return in == ssa.Instruction(st) }}
+		wa, fa := qa.Find()
+		// (b) a success return whose id, on that path, is not the recorded one
+		qb := &an.PathQ{Fn: fn, StartEntry: true, AllAlias: true, AllConsts: true,
+			Sink: func(in ssa.Instruction, ps *an.PathState) bool {
+				if in != ssa.Instruction(r) || !sinkSuccessReturn(in, ps) {
+					return false
+				}
+				return an.Resolve(ps.Selected(an.Resolve(r.Results[0]))) != id
+			}}
+		wb, fb := qb.Find()
+		// (c) a failure return whose id, on that path, is not zero
+		qc := &an.PathQ{Fn: fn, StartEntry: true, AllAlias: true, AllConsts: true,
+			Sink: func(in ssa.Instruction, ps *an.PathState) bool {
+				if in != ssa.Instruction(r) {
+					return false
+				}
+				e := errOperand(r)
+				if e == nil || !(onlyFailure || ps.NonNil(e)) {
+					return false
+				}
+				k, isC := an.ConstInt(ps.Selected(an.Resolve(r.Results[0])))
+				if !isC {
+					if kc, ok := ps.ConstOf(an.Resolve(r.Results[0])); ok {
+						k, isC = an.ConstInt(kc)
+					}
+				}
+				return !(isC && k == 0)
+			}}
+		_, fc := qc.Find()
+		if !onlyFailure {
+			if fa {
+				c.Bad(fn, "returned id is the recorded id", r.Pos(), "a successful return is reachable without recording the id in lastID: the next call can return the same or a smaller id", wa)
+			} else if fb {
+				c.Bad(fn, "returned id is the recorded id", r.Pos(), "a successful return does not return the id that was recorded in lastID", wb)
+			} else {
+				c.OK(fn, "returned id is the recorded id", r.Pos(), "")
+			}
+		}
+		if onlyFailure || fc {
+			c.Check(!fc, fn, "error returns the zero id", r.Pos(), "", "an error return carries a non-zero id")
 		}
 	}
 }
@@ -145,37 +182,34 @@ func c12layout(c *an.Ctx) {
 	// node id range check in New
 	if fn := c.Fn("nsqd", "New"); fn != nil {
 		idF := c.P.Field("nsqd", "Options", "ID")
-		lo, hi := false, false
-		an.Instrs(fn, func(in ssa.Instruction) {
-			b, ok := in.(*ssa.BinOp)
-			if !ok {
-				return
-			}
-			cmp := an.Cmp{Op: b.Op, X: b.X, Y: b.Y}
-			oc, ok := cmp.Oriented(func(x ssa.Value) bool { return isLoadOfField(x, idF) })
-			if !ok {
-				return
-			}
-			k, isC := an.ConstInt(oc.Y)
-			if !isC {
-				return
-			}
-			// reject conditions: ID < 0 ; ID >= 1<<nb
-			if (oc.Op == token.LSS && k == 0) || (oc.Op == token.LEQ && k == -1) {
-				for _, t := range an.BoolTests(b) {
-					if ok, _, _ := errReturnsAny(fn, []an.Edge{t.True}); ok {
-						lo = true
+		// no success return of New is reachable without having passed an edge that establishes ID >= 0, and one that
+		// establishes ID < 1<<nodeIDBits (path-sensitive: the test may be a computed boolean or split over several ifs)
+		establishes := func(lower bool) func(e an.Edge, st *an.PathState) bool {
+			return func(e an.Edge, st *an.PathState) bool {
+				for _, cmp := range st.CmpsOnEdge(e) {
+					oc, ok := cmp.Oriented(func(x ssa.Value) bool { return isLoadOfField(x, idF) })
+					if !ok {
+						continue
+					}
+					k, isC := an.ConstInt(oc.Y)
+					if !isC {
+						continue
+					}
+					if lower && ((oc.Op == token.GEQ && k == 0) || (oc.Op == token.GTR && k == -1)) {
+						return true
+					}
+					if !lower && ((oc.Op == token.LSS && k == 1<<uint(nb)) || (oc.Op == token.LEQ && k == (1<<uint(nb))-1)) {
+						return true
 					}
 				}
+				return false
 			}
-			if (oc.Op == token.GEQ && k == 1<<uint(nb)) || (oc.Op == token.GTR && k == (1<<uint(nb))-1) {
-				for _, t := range an.BoolTests(b) {
-					if ok, _, _ := errReturnsAny(fn, []an.Edge{t.True}); ok {
-						hi = true
-					}
-				}
-			}
-		})
+		}
+		qlo := &an.PathQ{Fn: fn, StartEntry: true, Sink: sinkSuccessReturn, CutEdge: establishes(true)}
+		_, flo := qlo.Find()
+		qhi := &an.PathQ{Fn: fn, StartEntry: true, Sink: sinkSuccessReturn, CutEdge: establishes(false)}
+		_, fhi := qhi.Find()
+		lo, hi := !flo, !fhi
 		c.Check(lo && hi, fn, "node id within [0, 1<<nodeIDBits)", fn.Pos(), "", sprintf("nsqd.New does not reject exactly ID < 0 || ID >= %d (lower ok=%v, upper ok=%v): a larger node id spills into the timestamp bits and two nodes/epochs can collide", 1<<uint(nb), lo, hi))
 	}
 	// NewGUID: id composition and the two error arms
